@@ -9,6 +9,26 @@ CLAIMED = {
     note="Trusted: Kani 0.68/CBMC 6.11 semantics of Rust; the invariant inv() in harness/rc.rs; stubs (current_thread, thread_cleanup, enqueue); sequentially consistent atomics; counters <= 2^20; unwind 3. Outside: weak memory, dashmap internals, thread-id reuse, >3 threads.",
     technique="SAT-based bounded model checking (Kani/CBMC) of one inductive step over a symbolic reference-count word; native replay under valgrind",
     design="§4 C05"),
+ "C10": dict(
+    text="Bounded model checking with Kani/CBMC of the real numeric primitives on full-width (64-bit) symbolic operands against a 128-bit oracle and a canonical-form check; counterexamples are replayed natively with Kani's concrete playback, which runs the real code.",
+    note="Trusted: Kani/CBMC; num-bigint (its `BigInt += isize`/`*= isize` are modelled by exact i128 arithmetic and the x86 carry intrinsics by their definition); feature set without jit2. Outside: the specialised arithmetic opcodes inlined in the VM loop, the constant folder, number<->string, gcd/lcm/expt, big operands above two limbs.",
+    technique="SAT-based bounded model checking (Kani/CBMC) of the real primitives with a 128-bit arithmetic oracle; native replay by concrete playback",
+    design="§4 C10"),
+ "C15": dict(engine="mir-bmc",
+    text="Bounded model checking of the stop-the-world protocol: per-thread automata are extracted from the compiler's MIR of the real functions (safepoint entry/exit, poll, stop/resume, stack enumeration, global-table swap, collection and global-definition entry points), composed with a symbolic scheduler and unrolled into a bit-vector SMT formula; the solver either shows no schedule within the bound lets a world-stopper look at a thread that is running interpreter code, or returns a schedule, which is replayed on the real engine through cfg-guarded scheduling hooks.",
+    note="Trusted: rustc's MIR dump, the vocabulary/assumption tables in lib/mirbmc.py, z3. Assumed: sequentially consistent atomics, no spurious park wake-ups, native threads only, all threads registered. Bounds: 2 threads (quick) / 3 (thorough), K <= 28..40 scheduler steps. Outside: native-code tier, make_thread forks, weak memory.",
+    technique="SMT-based bounded model checking (z3, QF_BV) of MIR-extracted thread automata with a symbolic scheduler; native schedule replay",
+    design="§3, §4 C15"),
+ "C16": dict(engine="mir-bmc",
+    text="Same extraction and unrolling as C15 with a fair-lasso query: is there a reachable state that repeats with every unfinished thread either scheduled in between or blocked throughout (deadlock or livelock of collections / global updates).",
+    note="As C15. Thread programs are finite, so any fair lasso is a progress violation. Outside: channels, joins, script-level locks, delivery of join results.",
+    technique="SMT-based bounded model checking (z3, QF_BV): fair-lasso search over MIR-extracted thread automata; native replay with a watchdog",
+    design="§3, §4 C16"),
+ "C17": dict(engine="mir-bmc",
+    text="Same extraction and unrolling as C15 with a host thread that runs the real ThreadStateController::interrupt on a script thread's controller: can the target complete 3 further polls, all begun after interrupt() returned, without returning the interruption error.",
+    note="As C15. Interpreter tier only. Outside: native-compiled loops, loops inside primitives that do not return to dispatch, the watchdog thread of interrupt.rs.",
+    technique="SMT-based bounded model checking (z3, QF_BV) of MIR-extracted thread automata plus a host-interrupt role; native schedule replay",
+    design="§3, §4 C17"),
 }
 
 NOT_APPLICABLE = {
